@@ -23,7 +23,6 @@ PARTS = {
                                                    "callbacks in any order; P = 4 units, rebalanceDelay 2 units, stable after 9 quiet units")]},
         "sims": [("SimMemberSD", "SimMemberSD", 40, 600, 90), ("SimMemberSD", "SimMemberSD8", 10, 150, 160)],
         "driver": "membersd",
-        "scenarios": [("ReplayMemberSD", "wit_membersd.ndjson")],
     },
 }
 
